@@ -75,6 +75,31 @@ PROPS["C20"] = dict(
     assumptions=[],
 )
 
+
+PROPS["C01"] = dict(
+    level_text="The expression language is specified twice in TLA+ - the grammar of the property as a recursive-descent recogniser with a big-step "
+               "evaluation (short-circuit, ',' evaluating both sides, default -print iff no action token, -quit ending everything, -prune cutting "
+               "the subtree), and the token-by-token builder with its frame stack, inversion flag, look-ahead and loop evaluators as the code has "
+               "them; TLC feeds every token sequence up to L to the builder and checks verdict and per-file behaviour against the reference for "
+               "every valuation, plus laws of the reference (parentheses neutral, juxtaposition = -a, double negation). Every sequence, accepted "
+               "or not, is replayed on the real find over a fixture whose visit order is forced; random deep expressions on random trees are "
+               "validated by TLC.",
+    level_note="Trusted: TLC; the harness's mapping of abstract tokens to real primaries (-name/-iname/-regex tests on letters it puts into the "
+               "file names, labelled -printf/-print0/-print actions, several always-true options) and its decoding of the output records. "
+               "A leading ',' or ')' is not judged (operand scan). Bounds in spec/mc/MC_Expr_*.cfg.",
+    mc=[dict(module="mc/MC_Expr.tla", cfg=dict(quick="mc/MC_Expr_quick.cfg", thorough="mc/MC_Expr_thorough.cfg"), workers=8)],
+    record=dict(quick=1500, thorough=40000),
+    selftest=dict(quick=40, thorough=200),
+    trace=dict(module="trace/T_Expr.tla", cfg="trace/T_Expr.cfg"),
+    trace_chunk=1500,
+    rule="MC: every token sequence up to L over 15 tokens (2 tests, 2 actions, -true, -false, -prune, -quit, an option, ! -a -o , ( )); "
+         "builder machine = reference grammar and evaluation on all 8 valuations; each sequence is a vector (verdict + output on a 5-entry chain). "
+         "Trace: random expressions up to ~40 tokens, nesting up to 6, 6 tests, up to 3 actions, 1 in 6 damaged, on random trees up to 14 entries "
+         "(-sorted) or chains.",
+    exhaustive_note="bounded-exhaustive over token sequences up to L",
+    assumptions=["the fixture contains no entry on which a test or action can fail"],
+)
+
 _WALK_NOTE = ("Trusted: TLC; the harness's materialisation of tree values (mkdir/symlink) and the in-process call of find_main with captured "
               "output. Unreadable directories cannot be produced as root in-process and are exercised by C11's fixture only. Link targets are "
               "non-links or dangling (no link-to-link chains).")
